@@ -224,7 +224,7 @@ Section Pass.
       { intros Hin. specialize (Hn c x Hin Ex). lia. }
       destruct (is_in_list h' && (h_rc h' =? h_tc h')) eqn:Ec.
       + apply andb_true_iff in Ec as [Eil Eeq]. apply mark_il in Eil. apply N.eqb_eq in Eeq.
-        rewrite Hm' in Eil. rewrite Eil in Hc. destruct Hc as (_ & HcL & _).
+        rewrite Hm' in Eil. rewrite Eil in Hc. destruct Hc as (_ & [HcL|?] & _); [|discriminate].
         assert (Hcr : c ∈ root) by (apply elem_of_app in HcL as [?|?]; tauto).
         assert (Hndr : NoDup root).
         { apply NoDup_app in Hnd as [H _]. apply NoDup_app in H as [H _]. exact H. }
@@ -243,7 +243,7 @@ Section Pass.
           -- rewrite Hself in Ey. injection Ey as <-. cbn.
              assert (Eil : is_in_list h' = true).
              { apply mark_il. rewrite Hm'.
-               destruct (ik_il _ _ _ _ I c x Ex) as [_ H]. apply H. rewrite elem_of_app. auto. }
+               destruct (ik_il _ _ _ _ I c x Ex) as [H _]. apply H. rewrite elem_of_app. auto. }
              rewrite Eil in Ec. cbn in Ec. apply N.eqb_neq in Ec. exact Ec.
           -- rewrite Hoth in Ey by exact Hne. eauto.
     - destruct (is_in_pc (o_hdr x)) eqn:Epc.
@@ -298,11 +298,13 @@ Section Pass.
 
   Lemma TG_process_counting s p :
     TG [] s ->
-    (Tinv [] s -> exists x, get (t_m s) p = Some x /\ h_mark (o_hdr x) = NM /\ o_box x <> BNotYet) ->
+    (dirty (t_m s) \/
+     exists x, get (t_m s) p = Some x /\ h_mark (o_hdr x) = NM /\ o_box x <> BNotYet) ->
     TG [] (process_counting K P s p).1.
   Proof.
     intros [D|T] Hp; [left; eapply frame_dirty; [apply frame_process_counting|exact D]|].
-    destruct (Hp T) as (x & Ex & Hm & Hb). clear Hp.
+    destruct Hp as [D|(x & Ex & Hm & Hb)];
+      [left; eapply frame_dirty; [apply frame_process_counting|exact D]|].
     destruct s as [m root non q]. destruct T as [I Hn Hr]. cbn [t_m t_root t_non t_q] in *.
     rewrite app_nil_r in I.
     pose proof (Imk_mark_cases _ _ _ _ _ _ I Ex) as Hc. rewrite Hm in Hc.
@@ -389,7 +391,7 @@ Section Pass.
         * exact (ik_size _ _ _ _ I4).
         * exact (ik_uflow _ _ _ _ I4).
         * exact (ik_nodup _ _ _ _ I4).
-        * rewrite app_nil_r. cbn. rewrite app_assoc.
+        * rewrite app_nil_r. cbn.
           apply NoDup_cons. split; [rewrite !elem_of_app; tauto|exact Hnd4'].
         * intros o' Hne. rewrite !elem_of_app, elem_of_cons, elem_of_list_singleton.
           split; [reflexivity|]. split; [tauto|]. rewrite elem_of_nil. tauto.
@@ -402,5 +404,279 @@ Section Pass.
       + intros o y Ho Ey. apply elem_of_cons in Ho as [->|Ho].
         * rewrite Hself in Ey. injection Ey as <-. cbn. apply N.eqb_neq, Eq.
         * rewrite Hoth in Ey by (intros ->; tauto). eauto.
+  Qed.
+
+  (** popping the head of the buffer / of the queue *)
+  Definition popped (m : machine) (p : id) : Prop :=
+    dirty m \/ exists x, get m p = Some x /\ h_mark (o_hdr x) = NM /\ o_box x <> BNotYet.
+
+  Lemma TG_pop_pc m root non q p rest :
+    TG [] (TState m root non q) -> pc m = p :: rest ->
+    let m0 := dec_size p (uhdr p (set_mark NM) m <| pc := rest |>) in
+    TG [] (TState m0 root non q) /\ popped m0 p.
+  Proof.
+    intros [D|T] Epc m0.
+    { cbn [t_m] in D. assert (dirty m0) by (eapply frame_dirty; [|exact D]; subst m0; frame_peel).
+      split; left; assumption. }
+    destruct T as [I Hn Hr]. cbn [t_m t_root t_non t_q] in *.
+    destruct (ik_valid _ _ _ _ I p) as [x Ex]; [rewrite Epc, !elem_of_app, elem_of_cons; auto|].
+    assert (Hm : h_mark (o_hdr x) = PC).
+    { apply (ik_pc _ _ _ _ I p x Ex). rewrite Epc. apply elem_of_cons. auto. }
+    pose proof (Imk_mark_cases _ _ _ _ _ _ I Ex) as Hc. rewrite Hm in Hc. destruct Hc as (_ & HcL & HcQ).
+    rewrite elem_of_app in HcL.
+    pose proof (ik_nodup _ _ _ _ I) as Hnd. rewrite Epc in Hnd. apply NoDup_cons in Hnd as [Hpr Hnd].
+    pose proof (ik_size _ _ _ _ I) as Hsz. rewrite Epc in Hsz. cbn [length] in Hsz.
+    assert (Hb : o_box x <> BNotYet).
+    { intros Hb. pose proof (ik_box _ _ _ _ I p x Ex Hb). congruence. }
+    assert (Em0 : m0 = uhdr p (set_mark NM) m <| pc := rest |> <| pc_size ::= fun n => n - 1 |>).
+    { subst m0. unfold dec_size. change (pc_size (uhdr p (set_mark NM) m <| pc := rest |>)) with (pc_size m).
+      destruct (pc_size m =? 0) eqn:Ez; [apply N.eqb_eq in Ez; lia|reflexivity]. }
+    rewrite Em0. split.
+    - right. split; cbn [t_m t_root t_non t_q].
+      + eapply (Imk_reobj K _ _ _ _ m _ p x (fun x => x <| o_hdr ::= set_mark NM |>));
+          try exact I; try exact Ex; try reflexivity.
+        * cbn. rewrite Hsz. lia.
+        * exact (ik_uflow _ _ _ _ I).
+        * exact Hnd.
+        * exact (ik_lists _ _ _ _ I).
+        * intros o' Hne. cbn. rewrite Epc, elem_of_cons. tauto.
+        * cbn. split; [discriminate|tauto].
+        * cbn. rewrite elem_of_app. split; [discriminate|tauto].
+        * cbn. split; [discriminate|tauto].
+      + intros o y Ho Ey. change (get (uhdr p (set_mark NM) m) o = Some y) in Ey.
+        rewrite get_uhdr_ne in Ey by (intros ->; tauto). eauto.
+      + intros o y Ho Ey. change (get (uhdr p (set_mark NM) m) o = Some y) in Ey.
+        rewrite get_uhdr_ne in Ey by (intros ->; tauto). eauto.
+    - right. exists (x <| o_hdr ::= set_mark NM |>). split; [|split; [reflexivity|exact Hb]].
+      change (get (uhdr p (set_mark NM) m) p = Some (x <| o_hdr ::= set_mark NM |>)).
+      apply get_uhdr_eq, Ex.
+  Qed.
+
+  Lemma TG_pop_q m root non q' p :
+    TG [] (TState m root non (p :: q')) ->
+    let m0 := uhdr p (set_mark NM) m in
+    TG [] (TState m0 root non q') /\ popped m0 p.
+  Proof.
+    intros [D|T] m0.
+    { split; left; exact D. }
+    destruct T as [I Hn Hr]. cbn [t_m t_root t_non t_q] in *. rewrite app_nil_r in I.
+    destruct (ik_valid _ _ _ _ I p) as [x Ex]; [rewrite !elem_of_app, elem_of_cons; auto|].
+    assert (Hm : h_mark (o_hdr x) = IQ).
+    { apply (ik_iq _ _ _ _ I p x Ex). apply elem_of_cons. auto. }
+    pose proof (Imk_mark_cases _ _ _ _ _ _ I Ex) as Hc. rewrite Hm in Hc. destruct Hc as (HcP & HcL & _).
+    rewrite elem_of_app in HcL.
+    pose proof (ik_lists _ _ _ _ I) as Hnd. rewrite <- Permutation_middle in Hnd.
+    apply NoDup_cons in Hnd as [Hpr Hnd]. rewrite elem_of_app in Hpr.
+    assert (Hb : o_box x <> BNotYet).
+    { intros Hb. pose proof (ik_box _ _ _ _ I p x Ex Hb). congruence. }
+    split.
+    - right. split; cbn [t_m t_root t_non t_q].
+      + rewrite app_nil_r.
+        eapply (Imk_reobj K _ _ _ _ m _ p x (fun x => x <| o_hdr ::= set_mark NM |>));
+          try exact I; try exact Ex; try reflexivity.
+        * exact (ik_size _ _ _ _ I).
+        * exact (ik_uflow _ _ _ _ I).
+        * exact (ik_nodup _ _ _ _ I).
+        * exact Hnd.
+        * intros o' Hne. rewrite elem_of_cons. tauto.
+        * cbn. split; [discriminate|tauto].
+        * cbn. rewrite elem_of_app. split; [discriminate|tauto].
+        * cbn. split; [discriminate|tauto].
+      + intros o y Ho Ey. subst m0. rewrite get_uhdr_ne in Ey by (intros ->; tauto). eauto.
+      + intros o y Ho Ey. subst m0. rewrite get_uhdr_ne in Ey by (intros ->; tauto). eauto.
+    - right. exists (x <| o_hdr ::= set_mark NM |>). split; [|split; [reflexivity|exact Hb]].
+      apply get_uhdr_eq, Ex.
+  Qed.
+
+  Definition lists_empty (s : tstate) : Prop := t_root s = [] /\ t_non s = [] /\ t_q s = [].
+
+  Lemma TG_counting n : forall s r,
+    TG [] s -> counting K P n s = Some r ->
+    TG [] r.1 /\ (r.2 = false -> pc (t_m r.1) = [] /\ t_q r.1 = []) /\ (r.2 = true -> lists_empty r.1).
+  Proof.
+    induction n as [|n IH]; intros s r T E; cbn in E; [discriminate|].
+    destruct s as [m root non q]. cbn [t_m t_root t_non t_q] in E.
+    destruct (pc m) as [|p rest] eqn:Epc.
+    - destruct q as [|p q'].
+      + injection E as <-. cbn. split; [exact T|]. split; [auto|discriminate].
+      + destruct (TG_pop_q _ _ _ _ _ T) as [T0 Hp].
+        pose proof (TG_process_counting _ p T0 Hp) as T1.
+        pose proof (process_counting_boom (TState (uhdr p (set_mark NM) m) root non q') p) as Hb.
+        destruct (process_counting K P (TState (uhdr p (set_mark NM) m) root non q') p) as [s' boom].
+        cbn [fst snd] in *. destruct boom.
+        * injection E as <-. cbn [fst snd]. split; [exact T1|]. split; [discriminate|exact Hb].
+        * eapply IH; eassumption.
+    - destruct (TG_pop_pc _ _ _ _ _ _ T Epc) as [T0 Hp].
+      match type of E with context [process_counting K P ?s0 p] =>
+        pose proof (TG_process_counting s0 p T0 Hp) as T1;
+        pose proof (process_counting_boom s0 p) as Hb;
+        destruct (process_counting K P s0 p) as [s' boom] end.
+      cbn [fst snd] in *. destruct boom.
+      + injection E as <-. cbn [fst snd]. split; [exact T1|]. split; [discriminate|exact Hb].
+      + eapply IH; eassumption.
+  Qed.
+
+  (** ** The root-tracing phase *)
+  Lemma perm_remove (c : id) (l : list id) : NoDup l -> c ∈ l -> l ≡ₚ c :: remove_id c l.
+  Proof.
+    intros Hnd Hin. apply NoDup_Permutation; [exact Hnd| |].
+    - apply NoDup_cons. split; [rewrite remove_id_spec; tauto|apply NoDup_remove_id, Hnd].
+    - intros v. rewrite elem_of_cons, remove_id_spec. destruct (decide (v = c)) as [->|?]; tauto.
+  Qed.
+
+  Lemma get_setmark o k m o' y :
+    get (uhdr o (set_mark k) m) o' = Some y ->
+    exists x, get m o' = Some x /\ h_rc (o_hdr y) = h_rc (o_hdr x) /\ h_tc (o_hdr y) = h_tc (o_hdr x).
+  Proof.
+    intros E. apply get_upd_Some in E as (x & E & ->). exists x. split; [exact E|].
+    destruct (decide (o = o')); auto.
+  Qed.
+
+  Lemma TG_visit_root s c : TG [] s -> TG [] (visit_root s c).
+  Proof.
+    intros [D|T]; [left; eapply frame_dirty; [apply frame_visit_root|exact D]|].
+    destruct s as [m root non q]. destruct T as [I Hn Hr]. cbn [t_m t_root t_non t_q] in *.
+    unfold visit_root. cbn [t_m t_root t_non t_q].
+    destruct (get m c) as [x|] eqn:Ex.
+    2:{ right. split; cbn [t_m t_root t_non t_q]; [apply Imk_emit; [reflexivity|exact I]|exact Hn|exact Hr]. }
+    destruct (o_box x) eqn:Eb; [brk; cbn [t_m]; dirty_now| |brk; cbn [t_m]; dirty_now].
+    destruct (is_in_list (o_hdr x) && (h_rc (o_hdr x) =? h_tc (o_hdr x))) eqn:Ec.
+    2:{ right. split; assumption. }
+    apply andb_true_iff in Ec as [Eil Eeq]. apply mark_il in Eil. apply N.eqb_eq in Eeq.
+    pose proof (Imk_mark_cases _ _ _ _ _ _ I Ex) as Hc. rewrite Eil in Hc.
+    destruct Hc as (HcP & [HcL|?] & HcQ); [|congruence].
+    assert (Hcn : c ∈ non).
+    { apply elem_of_app in HcL as [Hcr|?]; [|assumption]. exfalso. exact (Hr c x Hcr Ex Eeq). }
+    pose proof (ik_lists _ _ _ _ I) as Hnd. rewrite app_nil_r in Hnd, HcQ.
+    assert (Hndn : NoDup non).
+    { apply NoDup_app in Hnd as [H _]. apply NoDup_app in H as (_ & _ & H). exact H. }
+    assert (Hcr : c ∉ root).
+    { apply NoDup_app in Hnd as [H _]. apply NoDup_app in H as (_ & H & _). intros Hin. exact (H c Hin Hcn). }
+    right. split; cbn [t_m t_root t_non t_q].
+    - eapply (Imk_reobj K _ _ _ _ m _ c x (fun x => x <| o_hdr ::= set_mark IQ |>));
+        try exact I; try exact Ex; try reflexivity.
+      + exact (ik_size _ _ _ _ I).
+      + exact (ik_uflow _ _ _ _ I).
+      + exact (ik_nodup _ _ _ _ I).
+      + rewrite app_nil_r.
+        assert (Hp : (root ++ remove_id c non) ++ q ++ [c] ≡ₚ (root ++ non) ++ q).
+        { rewrite (perm_remove c non Hndn Hcn) at 2. rewrite <- !app_assoc.
+          apply Permutation_app_head. cbn. rewrite app_assoc. symmetry. apply Permutation_cons_append. }
+        rewrite Hp. exact Hnd.
+      + intros o' Hne. rewrite !elem_of_app, remove_id_spec, elem_of_list_singleton, elem_of_nil. tauto.
+      + cbn. split; [discriminate|tauto].
+      + cbn. rewrite elem_of_app, remove_id_spec. split; [discriminate|tauto].
+      + cbn. rewrite !elem_of_app, elem_of_list_singleton. tauto.
+      + cbn. rewrite Eb. discriminate.
+    - intros o y Ho Ey. apply remove_id_spec in Ho as [Ho _].
+      destruct (get_setmark _ _ _ _ _ Ey) as (x0 & E0 & -> & ->). eauto.
+    - intros o y Ho Ey. destruct (get_setmark _ _ _ _ _ Ey) as (x0 & E0 & -> & ->). eauto.
+  Qed.
+
+  Lemma TG_fold_visit_root l s : TG [] s -> TG [] (fold_left visit_root l s).
+  Proof. revert s. induction l as [|a l IH]; cbn; intros s H; auto using TG_visit_root. Qed.
+
+  Lemma process_root_boom s p :
+    (process_root K P s p).2 = true -> lists_empty (process_root K P s p).1.
+  Proof.
+    unfold process_root. destruct (trace_event K p _) as [m1 boom].
+    destruct boom; [cbn; repeat split|]. destruct (traced_children P m1 p) as [m2 kids].
+    cbn; discriminate.
+  Qed.
+
+  Lemma TG_process_root s p : TG [] s -> TG [] (process_root K P s p).1.
+  Proof.
+    intros T. destruct s as [m root non q]. unfold process_root. cbn [t_m t_root t_non t_q].
+    pose proof (mild_trace_event K p m) as M1. pose proof (heap_trace_event p m) as E1.
+    destruct (trace_event K p m) as [m1 boom]. cbn [fst] in M1, E1.
+    pose proof (TG_mild _ _ _ _ _ _ T M1 E1) as T2.
+    destruct boom; cbn [fst].
+    - destruct T2 as [D|[I2 _ _]]; [left; cbn [t_m] in *; eapply frame_dirty; [|exact D]; frame_peel|].
+      cbn [t_m t_root t_non t_q] in I2. right. split; cbn [t_m t_root t_non t_q].
+      + eapply Imk_unmark_all; [exact I2|]. intros o. rewrite !elem_of_app, elem_of_nil. tauto.
+      + intros o y Ho; inversion Ho.
+      + intros o y Ho; inversion Ho.
+    - pose proof (mild_traced_children K P m1 p) as M2. pose proof (heap_traced_children m1 p) as E2.
+      destruct (traced_children P m1 p) as [m2 kids]. cbn [fst] in M2, E2.
+      apply TG_fold_visit_root. exact (TG_mild _ _ _ _ _ _ T2 M2 E2).
+  Qed.
+
+  Lemma TG_pop_root m rest non q p :
+    TG [] (TState m (p :: rest) non q) -> TG [] (TState (uhdr p (set_mark NM) m) rest non q).
+  Proof.
+    intros [D|T]; [left; exact D|].
+    destruct T as [I Hn Hr]. cbn [t_m t_root t_non t_q] in *. rewrite app_nil_r in I.
+    destruct (ik_valid _ _ _ _ I p) as [x Ex]; [rewrite !elem_of_app, elem_of_cons; auto|].
+    assert (Hm : h_mark (o_hdr x) = IL).
+    { apply (ik_il _ _ _ _ I p x Ex). rewrite elem_of_app, elem_of_cons. auto. }
+    pose proof (Imk_mark_cases _ _ _ _ _ _ I Ex) as Hc. rewrite Hm in Hc. destruct Hc as (HcP & _ & HcQ).
+    pose proof (ik_lists _ _ _ _ I) as Hnd. cbn in Hnd.
+    apply NoDup_cons in Hnd as [Hpr Hnd]. rewrite !elem_of_app in Hpr.
+    right. split; cbn [t_m t_root t_non t_q].
+    - rewrite app_nil_r.
+      eapply (Imk_reobj K _ _ _ _ m _ p x (fun x => x <| o_hdr ::= set_mark NM |>));
+        try exact I; try exact Ex; try reflexivity.
+      + exact (ik_size _ _ _ _ I).
+      + exact (ik_uflow _ _ _ _ I).
+      + exact (ik_nodup _ _ _ _ I).
+      + exact Hnd.
+      + intros o' Hne. cbn. rewrite elem_of_cons. tauto.
+      + cbn. split; [discriminate|tauto].
+      + cbn. rewrite elem_of_app. split; [discriminate|tauto].
+      + cbn. split; [discriminate|tauto].
+    - intros o y Ho Ey. destruct (get_setmark _ _ _ _ _ Ey) as (x0 & E0 & -> & ->). eauto.
+    - intros o y Ho Ey. destruct (get_setmark _ _ _ _ _ Ey) as (x0 & E0 & -> & ->).
+      apply (Hr o x0); [apply elem_of_cons; auto|exact E0].
+  Qed.
+
+  Lemma TG_roots n : forall s r,
+    TG [] s -> roots K P n s = Some r ->
+    TG [] r.1 /\ (r.2 = false -> t_root r.1 = [] /\ t_q r.1 = []) /\ (r.2 = true -> lists_empty r.1).
+  Proof.
+    induction n as [|n IH]; intros s r T E; cbn in E; [discriminate|].
+    destruct s as [m root non q]. cbn [t_m t_root t_non t_q] in E.
+    destruct root as [|p rest].
+    - destruct q as [|p q'].
+      + injection E as <-. cbn. split; [exact T|]. split; [auto|discriminate].
+      + destruct (TG_pop_q _ _ _ _ _ T) as [T0 _].
+        pose proof (TG_process_root _ p T0) as T1.
+        pose proof (process_root_boom (TState (uhdr p (set_mark NM) m) [] non q') p) as Hb.
+        destruct (process_root K P (TState (uhdr p (set_mark NM) m) [] non q') p) as [s' boom].
+        cbn [fst snd] in *. destruct boom.
+        * injection E as <-. cbn [fst snd]. split; [exact T1|]. split; [discriminate|exact Hb].
+        * eapply IH; eassumption.
+    - pose proof (TG_pop_root _ _ _ _ _ T) as T0.
+      pose proof (TG_process_root _ p T0) as T1.
+      pose proof (process_root_boom (TState (uhdr p (set_mark NM) m) rest non q) p) as Hb.
+      destruct (process_root K P (TState (uhdr p (set_mark NM) m) rest non q) p) as [s' boom].
+      cbn [fst snd] in *. destruct boom.
+      + injection E as <-. cbn [fst snd]. split; [exact T1|]. split; [discriminate|exact Hb].
+      + eapply IH; eassumption.
+  Qed.
+
+  (** ** The pass *)
+  Theorem trace_pass_buf m :
+    GI [] [] m ->
+    match (trace_pass K P m).2 with
+    | PDone L => GI L [] (trace_pass K P m).1
+    | PPanicked => GI [] [] (trace_pass K P m).1
+    | PFuel => True
+    end.
+  Proof.
+    intros H. unfold trace_pass.
+    assert (T0 : TG [] (TState m [] [] [])).
+    { destruct H as [D|I]; [left; exact D|right]. split; cbn; [exact I| |]; intros o x Ho; inversion Ho. }
+    destruct (counting K P (pass_fuel m) (TState m [] [] [])) as [[s b]|] eqn:E1; [|exact I].
+    destruct (TG_counting _ _ _ T0 E1) as (T1 & Hf1 & Hb1). cbn [fst snd] in *.
+    destruct b; cbn [fst snd].
+    - destruct (Hb1 eq_refl) as (R1 & R2 & R3). destruct T1 as [D|[I1 _ _]]; [left; exact D|right].
+      rewrite R1, R2, R3 in I1. exact I1.
+    - destruct (roots K P (pass_fuel m) s) as [[s' b']|] eqn:E2; [|exact I].
+      destruct (TG_roots _ _ _ T1 E2) as (T2 & Hf2 & Hb2). cbn [fst snd] in *.
+      destruct b'; cbn [fst snd].
+      + destruct (Hb2 eq_refl) as (R1 & R2 & R3). destruct T2 as [D|[I2 _ _]]; [left; exact D|right].
+        rewrite R1, R2, R3 in I2. exact I2.
+      + destruct (Hf2 eq_refl) as (R1 & R2). destruct T2 as [D|[I2 _ _]]; [left; exact D|right].
+        rewrite R1, R2 in I2. exact I2.
   Qed.
 End Pass.
